@@ -1,0 +1,23 @@
+//go:build verif && verif_par
+
+package extendeddaemonsetreplicaset
+
+import (
+	"github.com/go-logr/logr"
+	corev1 "k8s.io/api/core/v1"
+	"k8s.io/apimachinery/pkg/runtime"
+	"sigs.k8s.io/controller-runtime/pkg/client"
+
+	datadoghqv1alpha1 "github.com/DataDog/extendeddaemonset/api/v1alpha1"
+	"github.com/DataDog/extendeddaemonset/controllers/extendeddaemonsetreplicaset/strategy"
+)
+
+// CreatePodsForVerif exposes the parallel pod creation helper.
+func CreatePodsForVerif(logger logr.Logger, c client.Client, scheme *runtime.Scheme, podAffinitySupported bool, replicaset *datadoghqv1alpha1.ExtendedDaemonSetReplicaSet, podsToCreate []*strategy.NodeItem) []error {
+	return createPods(logger, c, scheme, podAffinitySupported, replicaset, podsToCreate)
+}
+
+// DeletePodsForVerif exposes the parallel pod deletion helper.
+func DeletePodsForVerif(logger logr.Logger, c client.Client, podByNodeName map[*strategy.NodeItem]*corev1.Pod, nodes []*strategy.NodeItem) []error {
+	return deletePods(logger, c, podByNodeName, nodes)
+}
